@@ -38,14 +38,38 @@ def observe_note(n) -> dict:
 
 
 def observe_track(tr) -> dict:
+    # stored sequences first, derived properties afterwards: a derived property that mutates the track
+    # must not be able to hide its effect from the observation that triggers it
+    notes = [observe_note(n) for n in tr.note_events]
+    sp = [[e.tick, us(e.timestamp), e.sustain] for e in tr.star_power_events]
+    te = [[e.tick, us(e.timestamp), e.value] for e in tr.track_events]
     le = tr.last_note_end_timestamp
     return {
         "instrument": tr.instrument.name, "difficulty": tr.difficulty.name, "header_tag": tr.header_tag,
         "last_end": None if le is None else us(le),
-        "notes": [observe_note(n) for n in tr.note_events],
-        "sp": [[e.tick, us(e.timestamp), e.sustain] for e in tr.star_power_events],
-        "te": [[e.tick, us(e.timestamp), e.value] for e in tr.track_events],
+        "notes": notes, "sp": sp, "te": te,
     }
+
+
+def raw(chart) -> str:
+    """Digest of STORED fields only (no derived/cached property is read): used to detect that reading derived
+    attributes — which every full observation does — itself changed the chart."""
+    tracks = {}
+    for inst in sorted(chart.instrument_tracks, key=lambda i: i.name):
+        inner = chart.instrument_tracks[inst]
+        for diff in sorted(inner, key=lambda d: d.name):
+            tr = inner[diff]
+            tracks[f"{inst.name}/{diff.name}"] = {
+                "labels": [tr.instrument.name, tr.difficulty.name],
+                "notes": [[n.tick, us(n.timestamp), list(n.note.value), _sustain(n.sustain), us(n.end_timestamp), n.hopo_state.name,
+                           None if n.star_power_data is None else n.star_power_data.star_power_event_index] for n in tr.note_events],
+                "sp": [[e.tick, us(e.timestamp), e.sustain] for e in tr.star_power_events],
+                "te": [[e.tick, us(e.timestamp), e.value] for e in tr.track_events],
+            }
+    return json.dumps({"metadata": observe_metadata(chart.metadata), "sync": observe_sync(chart.sync_track),
+                       "global": observe_global(chart.global_events_track),
+                       "keys": {i.name: sorted(d.name for d in m) for i, m in chart.instrument_tracks.items()}, "tracks": tracks},
+                      sort_keys=True, default=str)
 
 
 def observe_sync(st) -> dict:
